@@ -96,35 +96,95 @@ func runC35(rc *RC) {
 		c35Builders(rc)
 		return
 	}
-	kind := rc.Draw(3)
-	kindName := []string{"basic world", "mutable overlay world (no writers)", "compact world"}[kind]
+	kind := rc.Pick(3, 3, 3, 1, 1, 1, 1)
+	kindName := []string{"basic world", "mutable overlay world (no writers)", "compact world", "mutable overlay world over compact world (no writers)", "basic mutable world (no writers)", "mutable tags overlay world (no writers)", "overlay world"}[kind]
 	name := "C35/readers on " + kindName
 	rc.Phase(name)
 	g := newCityGen(rc)
-	g.noBaseCollections = kind == 2
+	compactBase := kind == 2 || kind == 3 || ((kind == 5 || kind == 6) && rc.Pct(50))
+	g.noBaseCollections = compactBase
 	specs := g.baseCity(true)
 	cache := []int{1, 2, 4, 8}[rc.Draw(4)]
 	rc.Knob("world-kind", kind)
-	if kind == 2 {
+	if compactBase {
 		rc.Knob("FeaturesByIDCacheSize", cache)
 		simrt.SetKnob("FeaturesByIDCacheSize", cache)
 	}
 	var overlayOps []op
-	if kind == 1 {
+	switch kind {
+	case 1, 3, 4:
 		for n := rc.Range(1, 8); n > 0; n-- {
-			o := g.genOp(opMix{noInvalid: true, richTypes: true})
+			o := g.genOp(opMix{noInvalid: true, richTypes: kind != 3})
+			overlayOps = append(overlayOps, o)
+			g.commit(o)
+		}
+	case 5:
+		for n := rc.Range(1, 8); n > 0; n-- {
+			o := g.genTagOp()
 			overlayOps = append(overlayOps, o)
 			g.commit(o)
 		}
 	}
-	build := func() (b6.World, error) {
-		switch kind {
-		case 0:
-			return newBasicWorld(specs)
-		case 2:
+	// the upper layer of a (read-only) OverlayWorld: replaced and new points
+	var upper []*fspec
+	if kind == 6 {
+		seen := map[b6.FeatureID]bool{}
+		for n := rc.Range(0, 6); n > 0; n-- {
+			s := g.pointSpec(rc.Draw(maxPoints), 3)
+			s.Tags = g.someTags(2)
+			if !seen[s.ID] {
+				seen[s.ID] = true
+				upper = append(upper, s)
+			}
+		}
+	}
+	newBase := func() (b6.World, error) {
+		if compactBase {
 			return newCompactWorld(specs, 1)
 		}
-		bw, err := newBasicWorld(specs)
+		return newBasicWorld(specs)
+	}
+	build := func() (b6.World, error) {
+		switch kind {
+		case 0, 2:
+			return newBase()
+		case 4:
+			m := ingest.NewBasicMutableWorld()
+			for _, f := range buildAll(specs) {
+				if err := m.AddFeature(f); err != nil {
+					return nil, err
+				}
+			}
+			for _, x := range overlayOps {
+				if err := x.apply(m); err != nil && x.Kind == "add" {
+					return nil, fmt.Errorf("%s: %v", x, err)
+				}
+			}
+			return m, nil
+		case 5:
+			bw, err := newBase()
+			if err != nil {
+				return nil, err
+			}
+			o := ingest.NewMutableTagsOverlayWorld(bw)
+			for _, x := range overlayOps {
+				if x.Kind == "addtag" {
+					o.AddTag(x.ID, b6.Tag{Key: x.Key, Value: b6.NewStringExpression(x.Val)})
+				}
+			}
+			return o, nil
+		case 6:
+			bw, err := newBase()
+			if err != nil {
+				return nil, err
+			}
+			ow, err := newBasicWorld(upper)
+			if err != nil {
+				return nil, err
+			}
+			return ingest.NewOverlayWorld(ow, bw), nil
+		}
+		bw, err := newBase()
 		if err != nil {
 			return nil, err
 		}
